@@ -139,16 +139,16 @@ class Explorer:
         self.samples = []
         self.outcomes = set()
 
-    def check_state(self, ds, ref, program, taint):
+    def check_state(self, ds, ref, program, taint, tags=frozenset()):
         """Evaluate the invariant in one state; returns (ok to descend, taint for the children)."""
         self.stats['states'] += 1
         if ref.n() > 1:
             self.stats['states_nontrivial'] += 1
         mism = O.observe(ds, ref, self.what, absent_keys(program['source']))
         self.outcomes.add(hash((tuple(O.canon(v) for v in ref.values()), ref.sized, ref.indexable, ref.keyed)))
-        return self.judge(mism, ref, program, taint)
+        return self.judge(mism, ref, program, taint, tags)
 
-    def judge(self, mism, ref, program, taint):
+    def judge(self, mism, ref, program, taint, tags=frozenset()):
         ok = True
         stage = stage_name(ref, program['source'], len(program['ops']))
         for kind, detail in mism:
@@ -156,10 +156,12 @@ class Explorer:
             prop = KIND_PROP[kind]
             if prop != self.prop:
                 continue
-            if kind in taint:
+            if taint:
+                # a known finding was reported at a lower stage of this very path; what is built on top of
+                # it inherits that defect and is attributed to it (other paths reach this stage untainted)
                 self.stats['inherited_known'] += 1
                 continue
-            key = f'{kind}/{stage}' + (f'/{sub}' if sub else '')
+            key = f'{kind}/{stage}' + (f'/{sub}' if sub else '') + ''.join('@' + t for t in sorted(tags))
             v = common.Violation(prop, key, f'{describe(program)}: {detail}',
                                  {'engine': 'seqmc', 'program': program, 'what': sorted(self.what)})
             self.violations.append(v.to_json())
@@ -169,7 +171,7 @@ class Explorer:
                 ok = False
         return ok, taint
 
-    def dfs(self, ds, ref, program, depth, taint, first_ops=None):
+    def dfs(self, ds, ref, program, depth, taint, first_ops=None, tags=frozenset()):
         for op in (first_ops if first_ops is not None else self.alphabet):
             self.stats['transitions'] += 1
             try:
@@ -178,28 +180,37 @@ class Explorer:
                 self.stats['outside_domain'] += 1
                 continue
             cprog = {'source': program['source'], 'ops': program['ops'] + [op]}
+            ctags = tags | structural_tags(ref, op)
             try:
                 with O.deadline(10):
                     cds = B.apply(ds, ref, op)
             except BaseException as e:      # noqa: BLE001
                 self.stats['states'] += 1
                 ok, _ = self.judge([('build-refused', f'building the stage raised {O.exc_name(e)}: '
-                                                      f'{str(e)[:80]!r}')], cref, cprog, taint)
+                                                      f'{str(e)[:80]!r}')], cref, cprog, taint, ctags)
                 continue
-            ok, ctaint = self.check_state(cds, cref, cprog, taint)
+            ok, ctaint = self.check_state(cds, cref, cprog, taint, ctags)
             if 'iter' in self.what and ref.finite:
                 # building and observing the child must not alter the parent
                 vals, exc = O.expected_stream(ref.values())
                 out = []
                 O.cmp_stream('parent-changed', O.run_iter(lambda: iter(ds), ref.n() + 3), vals, exc, out)
                 if out:
-                    ok2, _ = self.judge(out, cref, cprog, taint)
+                    ok2, _ = self.judge(out, cref, cprog, taint, ctags)
                     ok = ok and ok2
             if len(self.samples) < 3 and depth == self.depth:
                 self.samples.append({'program': cprog, 'reference': [O.canon(v) for v in cref.values()],
                                      'keys': cref.keys() if cref.keyed else None})
             if ok and depth < self.depth:
-                self.dfs(cds, cref, cprog, depth + 1, ctaint)
+                self.dfs(cds, cref, cprog, depth + 1, ctaint, tags=ctags)
+
+
+def structural_tags(ref, op):
+    """Names of call sites that known findings are anchored to (see known_findings.json): a tag is set when
+    `op` is applied to a state of the given shape and is inherited by everything built on top."""
+    if op[0] == 'items' and ref.indexable and not ref.keyed:
+        return frozenset({'items-over-duplicate-keys'})
+    return frozenset()
 
 
 def describe(program):
@@ -267,6 +278,7 @@ def replay_program(prop, what, program):
     ds = B.source(program['source'])
     prog = {'source': program['source'], 'ops': []}
     taint = frozenset()
+    tags = frozenset()
     mism_final = []
     for i, op in enumerate(program['ops'] + [None]):
         last = (i == len(program['ops']))
@@ -275,6 +287,7 @@ def replay_program(prop, what, program):
             mism_final = mism
             break
         cref = R.apply(ref, op)
+        tags = tags | structural_tags(ref, op)
         try:
             cds = B.apply(ds, ref, op)
         except BaseException as e:      # noqa: BLE001
@@ -284,5 +297,5 @@ def replay_program(prop, what, program):
             break
         prog = {'source': program['source'], 'ops': prog['ops'] + [op]}
         ds, ref = cds, cref
-    ex.judge(mism_final, ref, prog, taint)
+    ex.judge(mism_final, ref, prog, taint, tags)
     return ex.violations
